@@ -13,12 +13,12 @@ def NoTrunc (s : Bytes) : Prop := ∀ d, decSet s = some d → (floatBits d).tru
 /-- **the mirrored slow path = the specification**: `d.set(s); d.floatBits()` returns the
 recogniser's verdict and, for an accepted decimal numeral with at most 800 significant digits,
 the correctly rounded value with the range rule. -/
-theorem slowPathMirror_spec (s : Bytes) (hu : underscoreOK s = true) (hlit : expLit s < 10000)
+theorem slowPathMirror_spec (s : Bytes) (hu : underscoreOK s = true)
     (hmant : ∀ p, recognise s = some p → p.mant < 10 ^ 800) (hnt : NoTrunc s) :
     (slowPathMirror s).toExcept =
       match recognise s with
       | none => .error .syntax
-      | some p => if p.hex then .error .syntax else p.eval := by
+      | some p => if p.hex then .error .syntax else (clampP p (expGapS s)).eval := by
   obtain ⟨k1, k2, k3⟩ := decSet_spec s hu
   unfold slowPathMirror
   cases hrec : recognise s with
@@ -26,7 +26,7 @@ theorem slowPathMirror_spec (s : Bytes) (hu : underscoreOK s = true) (hlit : exp
   | some p =>
     simp only []
     cases hph : p.hex
-    · obtain ⟨d, e1, e2, e3, e4, e5, e6⟩ := k3 p hrec hph (hmant p hrec) hlit
+    · obtain ⟨d, e1, e2, e3, e4, e5, e6⟩ := k3 p hrec hph (hmant p hrec)
       rw [e1]
       simp only [Bool.false_eq_true, if_false]
       have hfin := hnt d e1
@@ -37,22 +37,22 @@ theorem slowPathMirror_spec (s : Bytes) (hu : underscoreOK s = true) (hlit : exp
         cases (floatBits d).ovf <;> rfl
       rw [hte, hfb]
       by_cases hm0 : p.mant = 0
-      · rw [if_pos (e5 hm0), eval_zero p hm0, e4]
+      · rw [if_pos (e5 hm0), eval_zero (clampP p (expGapS s)) hm0, e4]; rfl
       · obtain ⟨f1, f2⟩ := e6 hm0
         rw [if_neg f1, e4]
         symm
-        apply eval_of_value p (Nat.pos_of_ne_zero hm0) _ _ (decFrac_snd_pos _ _)
+        apply eval_of_value (clampP p (expGapS s)) (Nat.pos_of_ne_zero hm0) _ _ (decFrac_snd_pos _ _)
         rw [dval_frac, f2]
     · rw [k2 p hrec hph]; rfl
 
 /-- the fully mirrored `ParseFloat` agrees with the specification as soon as its slow path does -/
-theorem parseFloatMirror_of_slow (s : Bytes) (hlit : expLit s < 10000)
+theorem parseFloatMirror_of_slow (s : Bytes)
     (hslow : underscoreOK s = true → (slowPathMirror s).toExcept =
       match recognise s with
       | none => .error .syntax
-      | some p => if p.hex then .error .syntax else p.eval) :
-    (parseFloatMirror s).toExcept = parseFloatSpec s := by
-  unfold parseFloatMirror parseFloatSpec
+      | some p => if p.hex then .error .syntax else (clampP p (expGapS s)).eval) :
+    (parseFloatMirror s).toExcept = parseFloatSpecG (expGapS s) s := by
+  unfold parseFloatMirror parseFloatSpecG
   by_cases hu : underscoreOK s = true
   swap
   · simp only [Bool.not_eq_true] at hu
@@ -78,9 +78,10 @@ theorem parseFloatMirror_of_slow (s : Bytes) (hlit : expLit s < 10000)
       rw [hrec] at hslowM
       exact hslowM
     | some p =>
-      have ha := k2 p hrec
+      have ha0 := k2 p hrec
+      have ha := agrees_clamp _ _ _ ha0
       have hok := ha.1
-      have hhx := ha.2.2.1
+      have hhx : (readFloat s).hex = p.hex := ha.2.2.1
       rw [hrec] at hslowM
       simp only [] at hslowM
       cases hph : p.hex
@@ -102,7 +103,7 @@ theorem parseFloatMirror_of_slow (s : Bytes) (hlit : expLit s < 10000)
           simp only [Bool.not_false, if_true] at hfast
           have hf := atof64exact_correct _ _ _ _ hfast
           have hno := exact_no_overflow _ _ _ _ hfast
-          have hev := agrees_eval (readFloat s) p (expLit s) ha htr hlit
+          have hev := agrees_eval (readFloat s) (clampP p (expGapS s)) ha htr
           rw [← hev, hrh]
           unfold Parsed.eval
           simp only [Bool.false_eq_true, if_false, hno, hf]
@@ -111,18 +112,18 @@ theorem parseFloatMirror_of_slow (s : Bytes) (hlit : expLit s < 10000)
         simp only [hrh, hok, Bool.and_self, if_true]
         cases htr : (readFloat s).trunc
         · have hm64 := ha.2.2.2.1
-          have hev := agrees_eval (readFloat s) p (expLit s) ha htr hlit
+          have hev := agrees_eval (readFloat s) (clampP p (expGapS s)) ha htr
           rw [(atofHex_spec _ _ _ hm64).1, ← hev, hrh]
-        · exact hex_trunc_eval (readFloat s) p (expLit s) ha hph htr hlit
+        · exact hex_trunc_eval (readFloat s) (clampP p (expGapS s)) ha hph htr
 
 /-- **parseFloatMirror_correct (runs without truncation)** — the FULLY MIRRORED model of
 `bytesconv.ParseFloat(s, 64)` returns exactly what `parseFloatSpec` says, for every byte string
 whose exponent literal is below the clamp, whose mantissa has at most 800 significant digits, and
 on which the slow path drops no non-zero digit.  Superseded by `parseFloatMirror_full`
 (C03TrMirror), which needs no such run condition. -/
-theorem parseFloatMirror_eq_spec (s : Bytes) (hlit : expLit s < 10000)
+theorem parseFloatMirror_eq_spec (s : Bytes) (hlit : expLit s < 100000)
     (hmant : ∀ p, recognise s = some p → p.mant < 10 ^ 800) (hnt : NoTrunc s) :
-    (parseFloatMirror s).toExcept = parseFloatSpec s :=
-  parseFloatMirror_of_slow s hlit (fun hu => slowPathMirror_spec s hu hlit hmant hnt)
+    (parseFloatMirror s).toExcept = parseFloatSpec s := by
+  rw [parseFloatMirror_of_slow s (fun hu => slowPathMirror_spec s hu hmant hnt), parseFloatSpecG_small s hlit]
 
 end C03
